@@ -440,13 +440,13 @@ theorem validate_spec (C : Ctx) (r : Record) (hinv : r.Inv)
     intro o ho
     cases o with
     | none => rfl
-    | some c => exact hvalid c ho
+    | some c => simp only [Record.columnErrors_none]; exact hvalid c ho
   subst he2
   by_cases hfn : r.slots.any (·.isNone) = true
-  · rw [if_pos hfn]
+  · rw [if_pos hfn, List.append_nil]
   · rw [if_neg hfn]
-    have := hinv.assertionsHold (Bool.eq_false_iff.2 hfn)
-    rw [this]
+    have := hinv.syncErrors (Bool.eq_false_iff.2 hfn)
+    rw [this, List.append_nil]
 
 theorem accept_false_some {C : Ctx} {sp : ColSpec} {f : Text} {v : PyVal}
     (h : sp.accept C false f = some v) :
